@@ -25,7 +25,7 @@ LEVEL_TEXT = ("Lean theorems: parse(write a) = a (names, order, residues, length
               "that witness for the repaired one (roundtrip_nexus_patched_witness).")
 LEVEL_NOTE = ("Trusted: Lean kernel; harness; compress/gzip, xz, bufio, the file system (file round trips are observed on "
               "the implementation and compared with the in-memory model). Round-trip theorems for Phylip, Clustal, "
-              "the multi-Phylip stream and auto-detection are open (models + correspondence only): see evidence 'partial'.")
+              "the multi-Phylip stream and chains of formats are open (models + correspondence only): see evidence 'partial'.")
 TECHNIQUE = "Lean 4 proof (induction over rows / chunks for every width) + differential correspondence"
 LEAN_MODULES = ["Gv.Props.C02"]
 REQUIRED_THEOREMS = ["Gv.Props.C02." + n for n in ["roundtrip_fasta", "roundtrip_fasta_go", "roundtrip_stockholm",
